@@ -14,7 +14,7 @@ PROPERTY = "C17"
 META = {
     "explanation": "symbolic execution of the real Tdf.new / Tdf.copy / open path on a symbolic file system: contents and geometry of existing files are solver variables; the created file is parsed by the independent parser",
     "bounds": {"quick": {"existing_target": "TDF with N in {1,2} and 0-2 live blocks (symbolic), raw files of 0-20 symbolic bytes", "source": "N=2 with 0-2 live blocks"},
-               "thorough": {"existing_target": "same plus N=3, raw files up to 64 bytes", "source": "N in {1,2,3}"}},
+               "thorough": {"existing_target": "TDF with N in 1-4 and 0-3 live blocks, raw files of 0-300 symbolic bytes", "source": "N in {1,2,3,4,6} with 0-3 live blocks, every target kind"}},
     "outside_bounds": ["directories, permissions, symlinks, races between exists() and open()", "I/O errors"],
     "assumptions": ["SymFS: exists/open/stat/copyfile as modelled (copyfile = byte copy of the committed content)", "datetime.now() arbitrary within 32-bit seconds"],
 }
@@ -188,10 +188,10 @@ def open_case(kind):
 def instances(tier):
     q = tier == "quick"
     out = []
-    tkinds = ["absent", "tdf10", "tdf21", "tdf22", "raw0", "raw5", "raw20"] + ([] if q else ["tdf32", "raw64", "raw16"])
+    tkinds = ["absent", "tdf10", "tdf21", "tdf22", "raw0", "raw5", "raw20"] + ([] if q else ["tdf11", "tdf20", "tdf30", "tdf31", "tdf32", "tdf33", "tdf43", "raw1", "raw15", "raw16", "raw17", "raw64", "raw300"])
     for k in tkinds:
         out.append(Instance(f"new.{k}", new_case(k), goals=["absent" if k == "absent" else "exists"]))
-    skinds = ["tdf20", "tdf21", "tdf22"] + ([] if q else ["tdf10", "tdf11", "tdf32"])
+    skinds = ["tdf20", "tdf21", "tdf22"] + ([] if q else ["tdf10", "tdf11", "tdf30", "tdf31", "tdf32", "tdf33", "tdf42", "tdf63"])
     for s in skinds:
         for d in (["absent", "tdf21", "raw0", "raw5"] if q else tkinds):
             out.append(Instance(f"copy.{s}.to.{d}", copy_case(s, d, None), goals=["absent" if d == "absent" else "exists"]))
